@@ -530,9 +530,10 @@ theorem inv_subCopy (s : State) (sid : Nat) (h : Nat) (hi : Inv s) : Inv (stepSu
   | none => exact hi
   | some r =>
     simp only
-    by_cases hc : r.used = true ∧ r.phase = Phase.idle
+    by_cases hc : r.used = true
     · rw [if_pos hc]
-      exact inv_subscribeLk s sid r.mode r.pos hi ((hi.regs h r hr hc.1).idle_lt hc.2)
+      have := hi.pos_eq
+      exact inv_subscribeLk s sid r.mode _ hi (by omega)
     · rw [if_neg hc]; exact hi
 
 theorem inv_leave (s : State) (h : Nat) (hi : Inv s) : Inv (stepLeave s h).1 := by
